@@ -38,7 +38,7 @@ def build():
     if err:
         return None, "library does not build: " + err
     exes = {}
-    for name, flags in (("env_unit", SAN), ("init_proc", PLAIN), ("init_conc", PLAIN)):
+    for name, flags in (("env_unit", SAN), ("init_proc", PLAIN), ("init_conc", PLAIN), ("wbarrier_unit", PLAIN)):
         exe = os.path.join(common.BUILD, "bin", name)
         err = common.cc(os.path.join(common.HARNESS, name + ".c"), exe, flags=flags, libs=[lib, "-lpthread", "-ldl"])
         if err:
@@ -803,6 +803,18 @@ def run_case(exes, kind, envset, ops, consts):
         outs, crash = run_unit(exes["env_unit"], ops)
         bad = oracle_unit(ops, outs, crash, consts)
         return outs, common.driver("env", ops), bad, []
+    if kind == "wb":
+        rc, out, err = common.sh([exes["wbarrier_unit"]], inp="\n".join(ops) + "\n", timeout=40)
+        lines = out.splitlines()
+        bad = []
+        if rc == -9:
+            bad.append("workers' start/stop barrier: history %s hangs after %d answered lines (a re-initialised barrier that never opens)" % (ops, len(lines)))
+        elif rc != 0:
+            bad.append("workers' start/stop barrier: history %s: exit status %s %s" % (ops, rc, " ".join(err.split()[:30])))
+        for o, l in zip(ops, lines):
+            if "EARLY" in l:
+                bad.append("`%s`: %s" % (o, l))
+        return lines, common.driver("env", ops), bad, []
     if kind == "proc":
         lines, info, status = run_proc(exes["init_proc"], envset, ops)
         bad = oracle_proc(envset, ops, lines, status)
@@ -869,6 +881,23 @@ def run(res):
     for i in range(0, len(ugroups), chunk):
         cases.append(("unit", {}, [o for g in ugroups[i:i + chunk] for o in g], "unit"))
         nchunks += 1
+    # the workers' start/stop barrier: lifetimes on one static object, re-initialised over what the previous
+    # lifetime left behind (phase 1 and a full counter after an odd number of rounds) or over garbage
+    for i in range(12 if quick else 150):
+        ops, prev = [], None
+        for life in range(2 + rng.below(3)):
+            n = 1 + rng.below(8)
+            r = 1 + rng.below(5) if rng.chance(3, 4) else 2 * (1 + rng.below(3))
+            if prev is None or rng.chance(1, 4):
+                left = (rng.below(2), rng.below(12), rng.below(12))
+            else:
+                pn, pr = prev
+                ph = pr % 2
+                left = (ph, (0 if ph == 0 else pn), (pn if ph == 0 else 0))
+            ops.append("wbinit %d %d %d %d" % (left[0], left[1], left[2], n))
+            ops.append("wbrounds %d %d" % (n, r))
+            prev = (n, r)
+        cases.append(("wb", {}, ops, "worker-barrier"))
     # malformed environments at process level
     for i in range(35 if quick else 560):
         e, o = gen_malformed_env(rng, i)
@@ -904,7 +933,12 @@ def run(res):
     for (kind, envset, ops, tag) in cases:
         tags[tag.split(":")[0]] = tags.get(tag.split(":")[0], 0) + 1
         tc = time.time()
-        impl, model, bad, info = run_case(exes, kind, envset, ops, consts)
+        try:
+            impl, model, bad, info = run_case(exes, kind, envset, ops, consts)
+        except RuntimeError:
+            if first_bad is not None or first_diff is not None:
+                break          # a failing input is already in hand: report it rather than the harness trouble it causes later
+            raise
         phases[tag.split(":")[0]] = round(phases.get(tag.split(":")[0], 0) + time.time() - tc, 2)
         evaluations += len(ops) if kind == "unit" else 1
         h = common.hashcase([kind, sorted((k2, v.hex()) for k2, v in envset.items()), ops])
@@ -914,6 +948,8 @@ def run(res):
                 # a string counts if it is not decided at its first character
                 nontriv += sum(1 for o in ops if o.split()[0] in ("cpulist", "avail") and len(o.split()[-1]) > 5)
                 nontriv += sum(1 for o in ops if o.split()[0] in ("stk", "nw", "atoi", "bind", "guard", "cf") and len(o.split()[1]) > 3)
+            elif kind == "wb":
+                nontriv += 1
             elif kind == "proc":
                 nontriv += 1 if sum(1 for o in ops if o.split()[0] in ("init", "init_ex", "implicit", "fini")) >= 2 else 0
             else:
